@@ -12,7 +12,7 @@ Decided by
      slip (negative controls, among them the seeded swap of kValidateAssembler / kValidateIntermediate in
      BaseEmitter_updateForcedOptions) is rejected BY THE CONTRACT;
  (2) trace validation: harness/emitstate.cpp drives a real CodeHolder with x86::Assembler / x86::Builder / x86::Compiler
-     (or a64::Assembler), two StringLoggers and three ErrorHandlers (two recording, one throwing) through the histories
+     on x86-64 and x86-32 (or a64::Assembler), two StringLoggers and three ErrorHandlers (two recording, one throwing) through the histories
      exported from the model (the shortest history to every distinct model state, simulated long ones) and seeded random
      histories, and records after each call: result, handler notifications (which handler, which code, origin, one-shot
      state at that time), exception, lines appended to EACH logger, validator invocations, the effect of the pending
@@ -31,28 +31,32 @@ TMOD = os.path.join(SPEC, "EmitterStateTrace.tla")
 
 KEH = "finalize:own-error-handler-bypassed"
 KLG = "finalize:own-logger-bypassed"
+KARR = "emit_op_array:more-than-6-operands:unreported"
 KEYS = {
     KEH: "x86/a64 Builder|Compiler::finalize(): an error of the serialising Assembler is told to the CodeHolder's handler only; "
          "an emitter with its OWN ErrorHandler (documented to have priority) is not told - with no holder-level handler finalize() "
          "returns the error without any handler being called",
     KLG: "x86/a64 Builder|Compiler::finalize(): the serialising Assembler logs to the CodeHolder's logger only; the emitter's OWN "
          "logger (documented to override the holder's) receives nothing",
+    KARR: "BaseEmitter::emit_op_array(id, ops, op_count > 6) returns kInvalidArgument without telling the ErrorHandler in effect and without "
+          "consuming the pending one-shot state (options / extra register / inline comment leak into the next instruction)",
 }
 # minimal histories that show the findings
 REPRO = {
     KEH: {"arch": "x64", "kinds": ["bld"], "ops": [["Init"], ["Attach", 1], ["ESetHandler", 1, 1], ["Emit", 1, "B", False], ["Finalize", 1, False]]},
     KLG: {"arch": "x64", "kinds": ["cmp"], "ops": [["Init"], ["Attach", 1], ["ESetLogger", 1, 1], ["HSetLogger", 2], ["Emit", 1, "G", False], ["Finalize", 1, False]]},
+    KARR: {"arch": "x64", "kinds": ["asm"], "ops": [["Init"], ["Attach", 1], ["HSetHandler", 1], ["Helper", 1, "lock"], ["EmitN", 1]]},
 }
 
 ACTIONS = ["Init", "ResetH", "Reinit", "Attach", "Detach", "HSetLogger", "HSetHandler", "ESetLogger", "ESetHandler", "AddDiag",
-           "ClearDiag", "AddEnc", "ClearEnc", "Helper", "SetCm", "ResetStateOp", "Recreate", "EmitAsm", "EmitBld", "Comment", "Bind",
+           "ClearDiag", "AddEnc", "ClearEnc", "Helper", "SetCm", "ResetStateOp", "Recreate", "EmitAsm", "EmitBld", "EmitN", "Comment", "Bind",
            "ReportOp", "Finalize"]
 BUGS = ["swapdiag", "nofallback", "overrideown", "stalelogger", "keepstate", "ehpropagate", "forcedstale", "dblreport"]
 
 
 def mc_cfg(ctx, name, kinds="KindsA", loggers="{1, 2}", handlers="{1, 3}", classes='{"G", "V", "B", "Z"}', maxops=14, maxnodes=0,
            bug="none", fix="FALSE", helpers='{"lock", "k"}', enc='{"size"}', diag='{"va", "vi"}', misc='{"C", "F", "L"}', cm="TRUE",
-           known="KnownBoth", inv="Refines ContractType ForcedExact CachedPointersExact LogCommentsExact", view=True):
+           known="KnownAll", emitn="TRUE", inv="Refines ContractType ForcedExact CachedPointersExact LogCommentsExact", view=True):
     p = ctx.path(name + ".cfg")
     open(p, "w").write(f"""SPECIFICATION Spec
 CONSTANTS
@@ -65,6 +69,7 @@ CONSTANTS
   MaxNodes = {maxnodes}
   Bug = "{bug}"
   FixFinalize = {fix}
+  UseEmitN = {emitn}
   Helpers = {helpers}
   EncOpts = {enc}
   DiagOpts = {diag}
@@ -98,7 +103,7 @@ def action_coverage(out):
         name = owner(line)
         if name in ("Next",):        # a disjunct written inline in Next: attribute it to the operator it calls
             txt = src[line - 1]
-            mm = re.search(r"\b(Bind|Comment|SetCm|Helper|AddEnc|ClearEnc)\(", txt)
+            mm = re.search(r"\b(Bind|Comment|SetCm|Helper|AddEnc|ClearEnc|EmitN)\(", txt)
             name = mm.group(1) if mm else name
         if name == "Emit":           # Emit(i, c, g) dispatches on the kind
             name = "Emit"
@@ -117,7 +122,7 @@ def design(ctx):
     ]
     if not q:
         runs += [
-            ("bld_full", dict(kinds="KindsB", handlers="{1, 2, 3}", classes='{"G", "V", "B"}', maxnodes=3, helpers='{"lock", "k"}', enc="{}",
+            ("bld_full", dict(kinds="KindsB", handlers="{1, 3}", classes='{"G", "V", "B"}', maxnodes=3, helpers='{"lock", "k"}', enc="{}",
                               misc='{"C", "F", "L"}', cm="TRUE", maxops=18), False),
             ("asm_bld_cmp", dict(kinds="KindsABC", loggers="{1}", handlers="{3}", classes='{"V"}', maxnodes=1, helpers="{}", enc="{}", misc="{}",
                                  cm="FALSE", diag='{"va", "vi"}', maxops=14), False),
@@ -128,7 +133,9 @@ def design(ctx):
     # the finalize() routing of the pinned tree is itself refused by the contract (the finding) unless its keys are known,
     # and the proposed repair satisfies it
     negs.append(("finalize_head", dict(kinds="KindsB", classes='{"G", "B"}', maxnodes=1, helpers="{}", enc="{}", misc="{}", cm="FALSE", maxops=10,
-                                       known="{}", inv="Refines")))
+                                       known="{}", emitn="FALSE", inv="Refines")))
+    negs.append(("emit_op_array_head", dict(kinds="KindsA", classes='{"G"}', helpers='{"lock"}', enc="{}", misc="{}", cm="FALSE", maxops=8,
+                                            known="KnownFin", inv="Refines")))
     fixrun = ("finalize_fixed", dict(kinds="KindsB", classes='{"G", "V", "B"}', maxnodes=2, helpers="{}", enc="{}", misc='{"C"}', cm="FALSE", maxops=14,
                                      known="{}", fix="TRUE"), False)
     cov = {}
@@ -207,8 +214,10 @@ def script_variants(hists, kinds):
             res.append({"arch": "x64", "kinds": ["asm"], "ops": ops})
             if n % 2 == 0:
                 res.append({"arch": "a64", "kinds": ["asm"], "ops": ops})
+            if n % 4 == 1:
+                res.append({"arch": "x86", "kinds": ["asm"], "ops": ops})
         elif kinds == ["bld"]:
-            res.append({"arch": "x64", "kinds": ["bld" if n % 2 else "cmp"], "ops": ops})
+            res.append({"arch": "x86" if n % 5 == 0 else "x64", "kinds": ["bld" if n % 2 else "cmp"], "ops": ops})
         elif kinds == ["asm", "bld"]:
             res.append({"arch": "x64", "kinds": ["asm", "cmp" if n % 3 == 0 else "bld"], "ops": ops})
         else:
@@ -272,7 +281,7 @@ def run(ctx):
         vlib.write_ndjson(sp, part)
         shards.append((f"scripts{k}", sp, tp, ["script", sp, tp]))
     nrand = 4 if q else 10
-    nexec, steps = (220, 90) if q else (1500, 140)
+    nexec, steps = (220, 90) if q else (1200, 130)
     for k in range(nrand):
         tp = ctx.path(f"trace_random_{k}.ndjson")
         shards.append((f"random{k}", None, tp, ["random", tp, nexec, steps]))
